@@ -926,7 +926,8 @@ func TestC19Sched(t *testing.T) {
 }
 func TestC07Sched(t *testing.T) { run(t, "C07", c07RefreshVsExpiry("perm"), c07RefreshVsExpiry("chan")) }
 func TestC06Sched(t *testing.T) { run(t, "C06", c06Realloc(), c06ReallocVsTimer(), c06Reconnect(), c06RefreshVsExpiry()) }
-func TestC04Sched(t *testing.T) { run(t, "C04", c04TwoConns()) }
+// c06Reconnect is an isolation matter as well: the party that no longer owns the 5-tuple (the old connection) acts on the allocation now occupying it.
+func TestC04Sched(t *testing.T) { run(t, "C04", c04TwoConns(), c06Reconnect()) }
 func TestC16Sched(t *testing.T) { run(t, "C16", c16TwoBinds(), c16BindVsTimeout()) }
 func TestC15Sched(t *testing.T) {
 	run(t, "C15", c15SlowCallback("alloc"), c15SlowCallback("perm"), c15SlowCallback("chan"), c15SlowCallbackReq("perm", "chanbind"), c15EqualDeadlines(), c15SlowDial("other"), c15SlowDial("own"))
